@@ -21,13 +21,13 @@ TReset == /\ Cur("Reset") /\ E.leasing = Leasing
           /\ topics' = Known /\ nparts' = [t \in Topics |-> IF t \in Known THEN NP ELSE 0]
           /\ recs' = [x \in TP |-> 0] /\ opened' = {} /\ health' = "healthy" /\ storeUp' = TRUE
           /\ etcdOwner' = [x \in TP |-> ""] /\ aOwns' = {} /\ closed' = FALSE /\ leaseDown' = FALSE
-          /\ sessDead' = FALSE /\ monParked' = FALSE
+          /\ sessDead' = FALSE /\ monParked' = FALSE /\ bOwns' = {} /\ a0Used' = FALSE /\ aclCache' = {}
           /\ last' = [api |-> "init", perms |-> Acl({}, {}, FALSE), leasing |-> Leasing, storeUp |-> TRUE, leaseUp |-> TRUE, items |-> <<>>, changed |-> {}]
           /\ nreq' = 0 /\ nenv' = 0 /\ done' = FALSE /\ hist' = <<>>
           /\ StMatch(E.st)
 ItemMatch(m, r) == /\ m.name = r.name /\ m.part = r.part /\ r.replied
                    /\ IF m.code = Backend THEN r.code \notin {29, 30, 31} ELSE m.code = r.code
-                   /\ m.data = r.data /\ m.owner0 = r.owner0 /\ m.owns1 = r.owns1 /\ m.owner1 = r.owner1
+                   /\ m.data = r.data /\ m.owner0 = r.owner0 /\ m.owns1 = r.owns1 /\ m.owner1 = r.owner1 /\ m.foreign = r.foreign
 TReq == /\ Cur("Req")
         /\ Req(E.mapi, E.tg, Acl(Pairs(E.perms.allow), Pairs(E.perms.deny), E.perms.dflt))
         /\ health = E.health /\ storeUp = E.storeUp
@@ -35,6 +35,14 @@ TReq == /\ Cur("Req")
         /\ \A i \in DOMAIN E.items : ItemMatch(last'.items[i], E.items[i])
         /\ Range(E.changed) \subseteq last'.changed
         /\ StMatch(E.st)
+TReqMid == /\ Cur("ReqMid")
+           /\ \E i \in 1..NPart : /\ PartSeq[i][1] = E.tg[1][1] /\ PartSeq[i][2] = E.tg[1][2]
+                                  /\ ReqMid(i, Acl(Pairs(E.perms.allow), Pairs(E.perms.deny), E.perms.dflt), E.mid)
+           /\ health = E.health /\ storeUp = E.storeUp
+           /\ Len(E.items) = 1 /\ ItemMatch(last'.items[1], E.items[1])
+           /\ Range(E.changed) \subseteq last'.changed
+           /\ StMatch(E.st)
+TOld == Cur("OldIncarnation") /\ E.owner = "A0" /\ \E i \in 1..NPart : ToString(i) = E.arg /\ OldIncarnation(i)
 TSetHealth == Cur("SetHealth") /\ SetHealth(E.arg) /\ E.health = E.arg
 TSetStore == Cur("SetStore") /\ SetStore(E.arg = "up")
 TForeign == Cur("ForeignAcquire") /\ E.owner = "B" /\ \E i \in 1..NPart : ToString(i) = E.arg /\ ForeignAcquire(i)
@@ -43,7 +51,7 @@ TLeaseDown == Cur("LeaseDown") /\ LeaseDown
 TSessionExpire == Cur("SessionExpire") /\ SessionExpire
 TMonitorRun == Cur("MonitorRun") /\ MonitorRun
 Consumed == TLCSet(7, IF TLCGet(7) < l THEN l ELSE TLCGet(7))
-TNext == (TReset \/ TReq \/ TSetHealth \/ TSetStore \/ TForeign \/ TClose \/ TLeaseDown \/ TSessionExpire \/ TMonitorRun) /\ Consumed
+TNext == (TReset \/ TReq \/ TSetHealth \/ TSetStore \/ TForeign \/ TClose \/ TLeaseDown \/ TSessionExpire \/ TMonitorRun \/ TReqMid \/ TOld) /\ Consumed
 TSpec == TInit /\ [][TNext]_tvars
 Reached == PrintT(<<"CONF", ToJson([reached |-> TLCGet(7), total |-> Len(TraceLog)])>>)
 ====
